@@ -169,8 +169,8 @@ func replayListener(job *Job) (res Result) {
 			r.peerClose(st.H)
 		case "PortFreed":
 			r.freePort()
-		case "SrvRecheck":
-			// repaired code only: part of the section released by SrvPublish (no hook point)
+		case "SrvRecheck", "Drain2":
+			// no hook point: part of the code section released by SrvPublish / Drain1
 		default:
 			if free {
 				break
@@ -217,7 +217,8 @@ func replayListener(job *Job) (res Result) {
 		}
 		// compare the observable state (the re-check that follows the publication of l.ln in the
 		// repaired code belongs to the same code section: compare after it)
-		if st.A == "SrvPublish" && i+1 < len(beh.Steps) && beh.Steps[i+1].A == "SrvRecheck" {
+		if i+1 < len(beh.Steps) && ((st.A == "SrvPublish" && beh.Steps[i+1].A == "SrvRecheck") ||
+			(st.A == "Drain1" && beh.Steps[i+1].A == "Drain2")) {
 			continue
 		}
 		if !stateDiverged {
@@ -247,7 +248,7 @@ func replayListener(job *Job) (res Result) {
 				res.find("limit/over-limit-served", "connection "+st.H+" was served although the limit was reached or the listener was stopping")
 			}
 		}
-		if st.A == "Drain1" && !stateDiverged {
+		if st.A == "Drain2" && !stateDiverged {
 			// Drain has returned: established connections must still relay
 			select {
 			case <-r.drainDone:
